@@ -34,8 +34,9 @@ type FullState struct {
 	GovParams  *fsm.GovernanceParams
 	FeeParams  *fsm.FeeParams
 	NonSigners map[string]*fsm.NonSigner
-	Retired    map[uint64]bool // retired committees (prefix 14)
-	Other      map[byte]int    // number of keys under the remaining prefixes
+	Retired    map[uint64]bool     // retired committees (prefix 14)
+	Committees *lib.CommitteesData // committee data list (prefix 12), nil when absent
+	Other      map[byte]int        // number of keys under the remaining prefixes
 }
 
 // DecodeFull decodes a scan (Chain.Scan) into a FullState.
@@ -127,6 +128,11 @@ func DecodeFull(scan map[string][]byte) (*FullState, error) {
 			rs.NonSigners[string(segs[len(segs)-1])] = ns
 		case 10:
 			if e := lib.Unmarshal(v, rs.Supply); e != nil {
+				return nil, e
+			}
+		case 12:
+			rs.Committees = new(lib.CommitteesData)
+			if e := lib.Unmarshal(v, rs.Committees); e != nil {
 				return nil, e
 			}
 		case 14:
